@@ -36,9 +36,27 @@ def _rand_bytes(r, n):
     return r.randbytes(n)
 
 
+_WORDS = [b"squash", b"block ", b"fragment ", b"table\n", b"0000", b"inode ", b"xattr=", b"the ", b"\t\t", b"deadbeef", b"/usr/lib/", b".so.1\n"]
+
+
 def _compressible(r, n):
-    unit = bytes([r.randrange(32, 127) for _ in range(r.choice([1, 3, 7, 16, 61]))])
-    return (unit * (n // len(unit) + 1))[:n]
+    """compressible in different ways, so that different deflate strategies / filters win for different pieces"""
+    k = r.randrange(5)
+    if k <= 1:                                   # periodic: LZ77 matches
+        unit = bytes([r.randrange(32, 127) for _ in range(r.choice([1, 3, 7, 16, 61]))])
+        return (unit * (n // len(unit) + 1))[:n]
+    if k == 2:                                   # skewed alphabet without repetitions: entropy coding only
+        alpha = bytes(r.sample(range(256), r.choice([2, 3, 5, 9])))
+        return bytes(alpha[min(len(alpha) - 1, int(r.random() ** 2 * len(alpha)))] for _ in range(n))
+    if k == 3:                                   # runs of random bytes: run length coding
+        out = bytearray()
+        while len(out) < n:
+            out += bytes([r.randrange(256)]) * r.choice([2, 5, 17, 40, 200])
+        return bytes(out[:n])
+    out = bytearray()                            # words
+    while len(out) < n:
+        out += r.choice(_WORDS)
+    return bytes(out[:n])
 
 
 def gen_content(r, bs, pool, big=False):
@@ -115,7 +133,7 @@ def sort_name(path):
 
 
 def gen_tree(r, bs=4096, nfiles=8, ndirs=3, hostile=False, specials=True, xattrs=False, hardlinks=False,
-             big=False, ids=None, bigdir=0, bigdir_dense=False, duptails=0):
+             big=False, ids=None, bigdir=0, bigdir_dense=False, duptails=0, tiny=0):
     """returns list of Entry (directories before their children)"""
     ents = []
     ids = ids or [0, 0, 1, 1000, 65534, 70000, 0xFFFFFFFE]
@@ -166,6 +184,13 @@ def gen_tree(r, bs=4096, nfiles=8, ndirs=3, hostile=False, specials=True, xattrs
                 e = Entry(p, FILE, content=blk * k + (tailb if suffix == b".2" else b""), **common())
                 ents.append(e)
                 files.append(e)
+    if tiny:
+        # many files below 512 bytes (own blocks with -T / DONT_FRAGMENT, tiny last fragment blocks)
+        for _ in range(tiny):
+            p = fresh(r.choice(dirs))
+            e = Entry(p, FILE, content=_compressible(r, r.choice([1, 20, 100, 300, 511, 512, 700])), **common())
+            ents.append(e)
+            files.append(e)
     if duptails:
         # many sub-block files drawn from a few compressible contents: a duplicate tail end regularly arrives while the fragment
         # block holding its first copy is sealed and submitted but not yet written (the "in flight" fragment block)
